@@ -20,7 +20,44 @@ class FuelGuard(Exception):
 # ---------------------------------------------------------------------------------------------
 # generation
 
+POPULATION_CAP = 2500
+
+
+def population(ops, cap=POPULATION_CAP):
+    """A cheap dry run (plain heap, no coalescing, clock = the callback's own time): how many callbacks the history
+    executes, counted up to `cap`.  Self-re-inserting callbacks that also schedule children multiply; a few generated
+    histories would execute tens of thousands of callbacks and dominate the run time."""
+    import heapq
+    kids, heap, ctr, n, guard = {}, [], 0, 0, 0
+    for op in ops:
+        if op[0] == 'kids':
+            kids[op[1]] = [(float(k[0]), int(k[1])) for k in op[2]]
+        elif op[0] == 'guard':
+            guard = int(op[1])
+        elif op[0] == 'add':
+            heapq.heappush(heap, (float(op[1]), ctr, int(op[2])))
+            ctr += 1
+        elif op[0] == 'evolve':
+            m = 0
+            while heap and heap[0][0] < float(op[1]) and n < cap and not (guard and m >= guard):
+                t, _, cid = heapq.heappop(heap)
+                n += 1
+                m += 1
+                for d, child in kids.get(cid, []):
+                    heapq.heappush(heap, (t + d, ctr, child))
+                    ctr += 1
+    return n
+
+
 def gen_history(rng, big):
+    """A generated history whose dry-run population stays below POPULATION_CAP (otherwise drawn again)."""
+    while True:
+        style, ops = gen_history_any(rng, big)
+        if population(ops) < POPULATION_CAP:
+            return style, ops
+
+
+def gen_history_any(rng, big):
     """ops: ('kids', id, [(delay, child)]) | ('add', t, id) | ('evolve', T)"""
     ops = []
     nids = int(rng.integers(1, 7 if not big else 12))
@@ -381,6 +418,8 @@ def run_real(ops):
         obs[-1]['alias'] = obs[-1]['alias'] + alias
     if obs:
         obs[-1]['created'] = list(scheduled)      # every entry ever created, in creation order
+        # the classification of the whole history (adds after the last evolve_until included)
+        obs[-1]['final_flags'] = (adds_after_horizon, adds_from_clock)
         # the same target once more must be accepted (it is not backwards): a zero-length evolution
         last = obs[-1]
         if last['status'] == 'ok' and not guard[0]:
@@ -416,8 +455,16 @@ def real_hist_line(obs, ops):
             fuels.add(fuel)
     # `replay`: the model re-ran the whole history through runOps with one entry-only callback table and one fuel and
     # got the same Hist (not attempted when the guard, i.e. the fuel, changed within the history)
-    return 'replay=%s hz=%s t=%s created=%d fired=%d pending=%d sorted=%s run=%s created=%s' % (
-        'true' if len(fuels) <= 1 else 'na', rat(last['hz']), rat(last['t1']), last['ctr'] + nadd_after, len(fires), len(last['queue']) + nadd_after,
+    # the hypotheses of history_inv / history_exactly_once as the harness classified the real history (these flags gate
+    # the oracle clauses order-across-evolves / clock-ahead-of-callback); the model decides AddsFrom / NoFuelOut itself
+    if len(fuels) <= 1:
+        b = lambda x: 'true' if x else 'false'  # noqa
+        hyp = 'addsfrom_hz=%s addsfrom_t=%s nofuelout=%s' % (b(last['final_flags'][0]), b(last['final_flags'][1]),
+                                                             b(all(o['status'] != 'fuel' for o in obs)))
+    else:
+        hyp = 'addsfrom_hz=na addsfrom_t=na nofuelout=na'
+    return 'replay=%s %s hz=%s t=%s created=%d fired=%d pending=%d sorted=%s run=%s created=%s' % (
+        'true' if len(fuels) <= 1 else 'na', hyp, rat(last['hz']), rat(last['t1']), last['ctr'] + nadd_after, len(fires), len(last['queue']) + nadd_after,
         'true' if all(a < b for a, b in zip(keys, keys[1:])) else 'false',
         ';'.join('%s:%d:%d' % (rat(e[1]), e[2], e[3]) for e in fires),
         ';'.join('%s:%d:%d' % (rat(t), c, i) for (t, c, i) in last['created']))
@@ -653,6 +700,19 @@ DIRECTED = [
 ]
 
 
+def terminating(ops, cand):
+    """Shrinking must not strip the guard off a history whose callbacks re-insert themselves for the same instant: the
+    real loop would spin forever.  A candidate of a guarded history must install a guard before its first evolve_until."""
+    if not any(op[0] == 'guard' for op in ops):
+        return True
+    for op in cand:
+        if op[0] == 'guard' and int(op[1]) > 0:
+            return True
+        if op[0] == 'evolve':
+            return False
+    return True
+
+
 def check_history(ctx, style, ops, want_model=True):
     obs = run_real(ops)
     bad = oracle(obs)
@@ -661,7 +721,7 @@ def check_history(ctx, style, ops, want_model=True):
         if key in seen:
             continue
         seen.add(key)
-        small = shrink_list(ops, lambda o: any(k == key for k, _ in oracle(run_real(o))))
+        small = shrink_list(ops, lambda o: terminating(ops, o) and any(k == key for k, _ in oracle(run_real(o))))
         what_small = [w for k, w in oracle(run_real(small)) if k == key]
         ctx.violation(key, what_small[0] if what_small else what, {'ops': small})
     nfire = sum(1 for o in obs for e in o['events'] if e[0] == 'F')
@@ -698,6 +758,9 @@ def run(ctx):
                  'more/less), decimal (non-dyadic doubles: clocks, callbacks and queue compared exactly, each integrate(dt) '
                  'must be the correctly rounded stretch between two clocks). The oracle evaluates each clause under exactly the '
                  'hypotheses of its theorem; after each history the last target is requested once more and must be accepted.')
+    ctx.rule += (' Clock-relative children (`self.t + d`, the docstring idiom; style clockrel) are modelled by loopC/stepOpC. '
+                 'Generated histories whose dry-run population reaches %d executed callbacks are drawn again.' % POPULATION_CAP)
+    ctx.extra['population_cap'] = POPULATION_CAP
     ctx.assumptions += ['heapq pops the least (time, counter) tuple',
                         'float subtraction of the generated dyadic / grid times is exact; for the decimal style only the clocks are '
                         'compared exactly (integrate arguments through the clocks)']
